@@ -10,6 +10,8 @@ Line protocol shared by drv_C02 and drv_C05: replays the harness' operations on 
   rows                           -> rows (minX maxX minY maxY orient)*
   state                          -> st (r first last [ cells ])* (c w row pred next x y orient)*
   check                          -> check ok|throw:runtime_error
+  inv                            -> inv true|false   (`decide (Inv s)`: the invariant of Properties/C02 on the current state;
+                                    the harness asks after `init` and after every primitive / replayed move and expects `true`)
   canSwap a b / canInsert c r p / canPlace c r p x   -> <op> 0|1|throw:runtime_error
   posSwap a b                    -> posSwap x1 y1 x2 y2
   posInsert c r p                -> posInsert x y
@@ -19,6 +21,8 @@ Line protocol shared by drv_C02 and drv_C05: replays the harness' operations on 
   export                         -> sol x0 y0 o0 …   (exportPlacement into the circuit)
   hpwl                           -> hpwl <Circuit.hpwl of the exported circuit>
   hpwl0                          -> hpwl <Circuit.hpwl of the circuit as read> (no state needed)
+  mark / reset / drop            -> nothing: push the current state / restore the last marked state (kept) / pop it
+                                    (exhaustive enumeration: try every move from one state)
   h_swap / h_insert / h_shift / h_reorder   (hook H3 history) -> nothing when accepted, `rejected …` otherwise
 -/
 namespace Driver.DetPlaceIO
@@ -27,6 +31,8 @@ open ColoVerif ColoVerif.DetPlace Driver
 structure DS where
   circ : Circuit := ⟨[], [], []⟩
   st : Option State := none
+  /-- states saved by `mark` (innermost first) -/
+  marks : List State := []
 
 def errName : Err → String
   | .runtime => "throw:runtime_error"
@@ -95,6 +101,12 @@ def stepLine (d : DS) (ws : List String) : DS × List String :=
               s!" {r.rect.minX} {r.rect.maxX} {r.rect.minY} {r.rect.maxY} {r.orient.code}")])
         | "state", _ => (d, [showState s])
         | "check", _ => (d, ["check " ++ checkName s.check])
+        | "mark", _ => ({ d with marks := s :: d.marks }, [])
+        | "reset", _ => (match d.marks with
+                         | m :: _ => ({ d with st := some m }, [])
+                         | [] => (d, ["bad-op reset without mark"]))
+        | "drop", _ => ({ d with marks := d.marks.drop 1 }, [])
+        | "inv", _ => (d, [s!"inv {decide (Inv s)}"])
         | "canSwap", [c1, c2] => (d, ["canSwap " ++ showBoolE (s.canSwap c1 c2)])
         | "canInsert", [c, r, p] => (d, ["canInsert " ++ showBoolE (s.canInsert c r p)])
         | "canPlace", [c, r, p, x] => (d, ["canPlace " ++ showBoolE (s.canPlace c r p x)])
